@@ -113,7 +113,7 @@ def removeFile (s : State) (k : FKey) : State :=
   | some f =>
     let proofs' := f.proofs.foldl (fun m pk => AMap.erase m pk) s.proofs
     let payinfo' :=
-      if f.expires = 0 then
+      if f.expires ≤ 0 then
         match AMap.get s.payinfo f.owner with
         | some pi =>
           let u := pi.spaceUsed - f.fileSize * f.maxProofs
